@@ -269,13 +269,17 @@ Proof.
   destruct (row_facts vi Hin) as (_ & _ & Hv & _).
   split; [exact Hkind|]. split; [rewrite Hkind; reflexivity|]. split; [exact Hc|]. split; [exact Hcs|].
   split; [exists (vi_version vi); unfold spec_size in *; auto|].
-  unfold qr_encode in H. destruct (qr_encode_data content level mode) as [[d vi']| | |]; try discriminate.
-  cbn [obind] in H. destruct (render d vi' mask) as [m| | |] eqn:Er; try discriminate.
-  cbn [obind] in H. inversion H; subst bc. cbn [qr_barcode bc_rows bc_height bc_width] in *.
-  assert (Hd : 0 <= qm_dim m) by (rewrite Hw; unfold spec_size; lia).
-  split; [unfold zlength; rewrite rows_of_length; lia|]. split.
-  - apply Forall_forall. intros row Hrow. unfold rows_of in Hrow. apply in_map_iff in Hrow.
+  assert (Hbc : exists m, bc = qr_barcode content m).
+  { unfold qr_encode in H. destruct (qr_encode_data content level mode) as [[d vi']| | |]; try discriminate.
+    cbn [obind] in H. destruct (render d vi' mask) as [m| | |]; try discriminate.
+    cbn [obind] in H. exists m. congruence. }
+  destruct Hbc as (m & Hbc).
+  assert (Hd : 0 <= qm_dim m).
+  { rewrite Hbc in Hw. cbn [qr_barcode bc_width] in Hw. rewrite Hw. unfold spec_size. lia. }
+  split; [rewrite Hbc; cbn [qr_barcode bc_rows bc_height]; unfold zlength; rewrite rows_of_length; lia|].
+  split.
+  - rewrite Hbc. cbn [qr_barcode bc_rows bc_width].
+    apply Forall_forall. intros row Hrow. unfold rows_of in Hrow. apply in_map_iff in Hrow.
     destruct Hrow as (y & <- & _). unfold zlength. rewrite map_length, zseq_length. lia.
-  - intros C scheme. unfold qr_encode_with_color, qr_encode.
-    destruct (qr_encode_data content level mode) as [[d2 vi2]| | |] eqn:E2; try discriminate.
-Abort.
+  - intros C scheme. unfold qr_encode_with_color. rewrite H. reflexivity.
+Qed.
